@@ -2,7 +2,7 @@
 # usage: tools/confirm_mutant.sh <agentdir> <k>
 # Confirms independently, in the scratch worktree /tmp/wt_confirm, that mutant<k>.diff (a) applies, (b) keeps the
 # pinned suite green, (c) makes demo<k>.rs fail, and (d) that the demo passes on the clean tree.
-d="$(realpath "$1")"; k="$2"; wt=/tmp/wt_confirm
+d="$(realpath "$1")"; k="$2"; wt=${WT:-/tmp/wt_confirm}
 cd $wt || exit 9
 git checkout -q -- . ; rm -f tests/demo*.rs
 demo_cmd=$(python3 -c "import json;print(json.load(open('$d/meta$k.json')).get('demo_cmd',''))")
@@ -11,14 +11,14 @@ feat=$(echo "$demo_cmd" | grep -o -- "--features [a-z,-]*" | head -1)
 rf=$(echo "$demo_cmd" | sed -n 's/.*RUSTFLAGS="\([^"]*\)".*/\1/p')
 cp "$d/demo$k.rs" tests/demo$k.rs
 echo "## clean tree demo ($extra $feat RUSTFLAGS=$rf)"
-RUSTFLAGS="$rf" CARGO_TARGET_DIR=target/demo cargo $extra test --offline $feat --test demo$k > /tmp/confirm_clean.log 2>&1; c_clean=$?
+RUSTFLAGS="$rf" CARGO_TARGET_DIR=target/demo cargo $extra test --offline $feat --test demo$k > $wt/confirm_clean.log 2>&1; c_clean=$?
 git apply "$d/mutant$k.diff" || { echo "APPLY FAILED"; git checkout -q -- .; rm -f tests/demo*.rs; exit 9; }
 echo "## mutant demo"
-RUSTFLAGS="$rf" CARGO_TARGET_DIR=target/demo cargo $extra test --offline $feat --test demo$k > /tmp/confirm_mut.log 2>&1; c_mut=$?
+RUSTFLAGS="$rf" CARGO_TARGET_DIR=target/demo cargo $extra test --offline $feat --test demo$k > $wt/confirm_mut.log 2>&1; c_mut=$?
 rm -f tests/demo$k.rs
 echo "## mutant full suite (default config)"
-cargo nextest run --workspace --no-fail-fast --offline --test-threads 8 > /tmp/confirm_suite.log 2>&1; c_suite=$?
-tail -2 /tmp/confirm_suite.log
+cargo nextest run --workspace --no-fail-fast --offline --test-threads 8 > $wt/confirm_suite.log 2>&1; c_suite=$?
+tail -2 $wt/confirm_suite.log
 git checkout -q -- . ; rm -f tests/demo*.rs
 echo "RESULT dir=$d k=$k demo_clean_rc=$c_clean demo_mutant_rc=$c_mut suite_mutant_rc=$c_suite"
 if [ $c_clean = 0 ] && [ $c_mut != 0 ] && [ $c_suite = 0 ]; then echo "CONFIRMED $d $k"; else echo "NOT-CONFIRMED $d $k"; fi
